@@ -85,6 +85,12 @@ CLAIMED = {
         'with unknown type, each missing key, wrong value keys, negative values at every position; declarative schematic lists; queries with known / unknown identifiers on all '
         'six solution kinds.  Replay observes "raised" vs "returned" and that accepted descriptions are stored unaltered.',
    ref='DESIGN.md §6 C19', technique='TLA+ validity predicates + TLC exhaustive fault enumeration; spec->code scenario replay'),
+ 'C18': dict(
+   text='Code->spec trace validation: the real ScientificFloat / ScientificComplex / Display.print_* are run on a complete grid (every 1..3-digit decimal mantissa x every '
+        'power of ten 10^-15..10^15 x signs x precisions 1..6 x every prefix table in use; binary64 neighbours, rounding carries, out-of-range values, four complex quadrants '
+        'in Cartesian / polar rad / polar deg); each rendered text is tokenised and judged by TLC with the TLA+ operator Display!RenderVerdict (sign, exponent multiple of 3, '
+        'mantissa in [1,1000], within half a unit of the p-th significant digit with exact ties accepted, infinity only from 10^M upwards); text that does not tokenise is a violation.',
+   ref='DESIGN.md §6 C18', technique='TLA+ acceptance predicate evaluated by TLC on recorded outputs (trace validation, code->spec)'),
 }
 
 PENDING_REASON = 'check not built yet in this round (planned: TLA+ model + conformance replay, see DESIGN.md §6); no claim is made until it exists'
